@@ -250,9 +250,13 @@ HEADER = ("(* GENERATED on every run by vlib/translate.py from the current sourc
 #   aliases  [(python statement, name)]   `x = <object expression>` where x is afterwards only read through listed
 #            observations marked "needs:<name>" (`service_pkt = self.scheduler.packet_in_service`)
 #   ignore_stmts [python statement]   whole statements dropped (a debug block `if self.debug: ...` that only prints)
-#   draws    [(python expression, parameter, type, constructor)]
+#   draws    [(python expression, parameter | [parameters], type, constructor)]
 #                                  `name = <expression>` consuming an outside value (random.uniform(0, 1)): the value
 #                                  is the parameter, the constructor is appended to the effects; at most once per path
+#                                  (with a list of parameters: the k-th consumption on a path reads the k-th one).
+#                                  A draw that is a proper subexpression of an assignment or of an `if` test is consumed
+#                                  before the statement (the rest of the expression being pure); `a and <draw ..>` in an
+#                                  `if` test is first split into nested ifs (short circuit); any other position is Unsupported
 #
 # Statements: assignments / augmented assignments to state fields and locals, if / elif / else, return
 # [True | False | condition] (ret="bool") or bare return (ret="unit"), pass, docstrings, print()/dprint() calls
@@ -357,7 +361,9 @@ class FxTr:
         self.reads = [(ast.dump(_parse_expr(src)), p, ty, flag) for (src, p, ty, flag) in spec.reads]
         self.len_reads = {ast.dump(_parse_expr(src)): (p, flag) for (src, p, ty, flag) in spec.reads if ty == "len"}
         self.effects = [(_parse_stmt(src), con, tys, keeps) for (src, con, tys, keeps) in spec.effects]
-        self.draws = [(ast.dump(_parse_expr(src)), p, ty, con) for (src, p, ty, con) in spec.draws]
+        self.draws = [(ast.dump(_parse_expr(src)), ([p] if isinstance(p, str) else list(p)), ty, con)
+                      for (src, p, ty, con) in spec.draws]
+        self.hoisted = 0
         self.volatile = {p for (_, p, _, flag) in spec.reads if flag == "volatile"}
         self.ignored = [_parse_stmt(src) for src in spec.ignore_stmts]
         self.aliases = [(_parse_stmt(src), name) for (src, name) in spec.aliases]
@@ -725,17 +731,16 @@ class FxTr:
                     raise Unsupported("multiple targets")
                 tgt = s.targets[0]
                 d = ast.dump(s.value)
-                for (dd, p, ty, con) in self.draws:
+                for (dd, ps_, ty, con) in self.draws:
                     if dd == d:
                         if not isinstance(tgt, ast.Name):
                             raise Unsupported("a draw must be assigned to a local name")
-                        if p in env["drawn"]:
-                            raise Unsupported(f"second draw of {p} on one path")
-                        env2 = self.copy(env)
-                        env2["drawn"].add(p)
-                        env2["fx"][1].append(con)
+                        env2, p = self.consume_draw(ps_, con, env)
                         env2["vars"][("local", tgt.id)] = V(p, ty)
                         return self.block(rest, env2, k)
+                if self.contains_draw(s.value):           # the draw is a proper subexpression: it is evaluated first
+                    value2, env = self.hoist_draws(s.value, env)
+                    return self.block([ast.Assign(targets=[tgt], value=value2)] + rest, env, k)
                 val = self.expr(s.value, env)
             else:
                 tgt = s.target
@@ -810,7 +815,59 @@ class FxTr:
         finally:
             self.spec.ret = caller_ret
 
+    def consume_draw(self, params, con, env):
+        """the next unused parameter of a draw on this path; the constructor is appended to the effects"""
+        left = [q for q in params if q not in env["drawn"]]
+        if not left:
+            raise Unsupported(f"more draws of {params[0]} on one path than parameters listed ({len(params)})")
+        env2 = self.copy(env)
+        env2["drawn"].add(left[0])
+        env2["fx"][1].append(con)
+        env2["done"].add(con)
+        return env2, left[0]
+
+    def contains_draw(self, e):
+        dumps = {d for (d, _, _, _) in self.draws}
+        return bool(dumps) and any(ast.dump(n) in dumps for n in ast.walk(e) if isinstance(n, ast.expr))
+
+    def hoist_draws(self, e, env):
+        """draw calls inside the expression e (everything else in e is pure) are consumed left to right BEFORE e is
+        evaluated: each is replaced by a fresh local holding the parameter"""
+        tr = self
+
+        class H(ast.NodeTransformer):
+            def __init__(self):
+                self.env = env
+
+            def generic_visit(self, node):
+                if isinstance(node, ast.expr):
+                    for (dd, ps_, ty, con) in tr.draws:
+                        if ast.dump(node) == dd:
+                            self.env, p = tr.consume_draw(ps_, con, self.env)
+                            tr.hoisted += 1
+                            nm = f"\0draw{tr.hoisted}"
+                            self.env["vars"][("local", nm)] = V(p, ty)
+                            return ast.Name(id=nm, ctx=ast.Load())
+                if isinstance(node, (ast.BoolOp, ast.IfExp)):
+                    raise Unsupported("a draw under and / or / a conditional expression outside an if test")
+                return super().generic_visit(node)
+        h = H()
+        e2 = h.visit(e)
+        return e2, h.env
+
     def do_if(self, s, rest, env, k):
+        if self.contains_draw(s.test):
+            # Python's evaluation order made explicit: `a and b` with a draw in b is `if a: if b: ..`; a draw in a plain
+            # test is consumed before the test
+            t = s.test
+            if isinstance(t, ast.BoolOp) and isinstance(t.op, ast.And) and not self.contains_draw(t.values[0]):
+                inner = t.values[1] if len(t.values) == 2 else ast.BoolOp(op=ast.And(), values=t.values[1:])
+                s2 = ast.If(test=t.values[0], body=[ast.If(test=inner, body=s.body, orelse=s.orelse)], orelse=s.orelse)
+                return self.do_if(s2, rest, env, k)
+            if isinstance(t, (ast.BoolOp, ast.IfExp)):
+                raise Unsupported("a draw under or / in the first operand of and")
+            t2, env = self.hoist_draws(t, env)
+            return self.do_if(ast.If(test=t2, body=s.body, orelse=s.orelse), rest, env, k)
         # an `if` with a return inside, or the last statement of the body: the rest is translated inside the branches
         joinable = bool(rest) and not any(isinstance(n, (ast.Return, ast.Raise)) for n in ast.walk(s))
         unk = self.option_params(s.test, env)
@@ -946,7 +1003,8 @@ def translate_fn(spec, state, record, prefix, effect_type):
     for (_, p, ty, _) in spec.reads:
         ps += f" ({p} : {COQ_TY[ty]})"
     for (_, p, ty, _) in spec.draws:
-        ps += f" ({p} : {COQ_TY[ty]})"
+        for q in ([p] if isinstance(p, str) else p):
+            ps += f" ({q} : {COQ_TY[ty]})"
     for (_, field, p) in spec.stateops:
         t = COQ_TY[dict(state)[field]]
         ps += f" ({p} : ({t}) -> ({t}))"
